@@ -1,6 +1,839 @@
 import PyCliffordModel.Proofs.RankLemmas
 import PyCliffordModel.Proofs.Tableau
-/-! # Proofs/PureEntropy — the pure-state entropy formula (half the rank of the restricted anticommutation matrix) -/
-namespace PC
+import PyCliffordModel.Proofs.Compose
+import Mathlib.Data.ZMod.Basic
+import Mathlib.Algebra.BigOperators.Fin
+import Mathlib.SetTheory.Cardinal.Finite
+import Mathlib.Data.Fintype.Card
+import Mathlib.LinearAlgebra.BilinearForm.Properties
+import Mathlib.LinearAlgebra.Dimension.Constructions
+import Mathlib.Algebra.Module.ZMod
+import Mathlib.LinearAlgebra.BilinearForm.Orthogonal
+import Mathlib.LinearAlgebra.FiniteDimensional.Lemmas
+import Mathlib.LinearAlgebra.Finsupp.LinearCombination
+import Mathlib.Algebra.Field.ZMod
+import Mathlib.FieldTheory.Finiteness
+/-! # Proofs/PureEntropy — the pure-state entropy formula (half the rank of the restricted anticommutation matrix)
 
+Layout:
+* §1 (`PC.PE`) the anticommutation form splits over a region and its complement; complement symmetry of the pure
+     branch (`entropy_compl`);
+* §A (`PC.Symp`, Mathlib linear algebra over a field) the abstract statement: generators `(P i, Q i) ∈ W_A × W_B`,
+     pairwise orthogonal for `ω_A ⊕ ω_B`, independent, `dim W_A + dim W_B = 2·#generators`; then the vectors of `W_A`
+     orthogonal to all `P i` are exactly the `A`-parts of the combinations whose `B`-part vanishes
+     (`map_ker_eq_orthogonal`), and the Gram matrix of any subfamily `P'` that spans `span P` modulo that radical has
+     `dim ker + dim W_A = #P' + 2·dim{c | ∑ c i • Q i = 0}` (`gram_kernel_dim`; cardinality form `gram_kernel_card`);
+* §2–§4 bits as `ZMod 2`, `cnt`/`kernelCount` as cardinalities of kernels (`kernelCount_eq_card`, `kernelCount_flat`,
+     `kernelCount_gram`), Pauli strings as vectors `W n`, the symplectic form `omega n` (`= acq`), nondegenerate;
+* §5 region/complement: a string is determined by its two restrictions; the additive splitting `splitHom`;
+* §6 the counting identity `gram_count` and the entropy formula `entropy_pure`.
+-/
+namespace PC
+namespace PE
+
+/-! ## §1 the anticommutation form splits over a region and its complement -/
+
+theorem map_not_not (m : List Bool) : (m.map (!·)).map (!·) = m := by
+  induction m with
+  | nil => rfl
+  | cons b t ih => simp only [List.map_cons, ih, Bool.not_not]
+
+/-- `acqSum` splits into the part inside the region and the part outside -/
+theorem acqSum_split : ∀ (m : List Bool) (a b : PStr), a.length ≤ m.length →
+    acqSum a b = acqSum (gather m a) (gather m b) + acqSum (gather (m.map (!·)) a) (gather (m.map (!·)) b)
+  | [], a, b, h => by
+    have : a = [] := by cases a with
+      | nil => rfl
+      | cons _ _ => simp at h
+    subst this
+    simp [acqSum_nil_left, gather_nil_left]
+  | _ :: _, [], b, _ => by simp [acqSum_nil_left, gather_nil_right]
+  | _ :: _, _ :: _, [], _ => by simp [acqSum_nil_right, gather_nil_right]
+  | true :: ms, q :: qs, r :: rs, h => by
+    have ih := acqSum_split ms qs rs (by simpa using h)
+    simp only [List.map_cons, Bool.not_true, gather_cons_true, gather_cons_false, acqSum_cons, ih]
+    omega
+  | false :: ms, q :: qs, r :: rs, h => by
+    have ih := acqSum_split ms qs rs (by simpa using h)
+    simp only [List.map_cons, Bool.not_false, gather_cons_true, gather_cons_false, acqSum_cons, ih]
+    omega
+
+/-- commuting strings have equal anticommutation bits inside and outside a region -/
+theorem acq_gather_compl (m : List Bool) (a b : PStr) (h : a.length ≤ m.length) (hc : acq a b = 0) :
+    acq (gather m a) (gather m b) = acq (gather (m.map (!·)) a) (gather (m.map (!·)) b) := by
+  unfold acq at hc ⊢
+  rw [acqSum_split m a b h] at hc
+  omega
+
+theorem acqMat_map (f : PStr → PStr) (l : List PStr) :
+    acqMat (l.map f) = l.map fun a => l.map fun b => acq (f a) (f b) := by
+  simp only [acqMat, List.map_map]; rfl
+
+/-- the anticommutation matrices of the restrictions to a region and to its complement coincide -/
+theorem acqMat_gather_compl (m : List Bool) (l : List PStr) (hl : ∀ a ∈ l, a.length ≤ m.length)
+    (hc : ∀ a ∈ l, ∀ b ∈ l, acq a b = 0) :
+    acqMat (l.map (gather m)) = acqMat (l.map (gather (m.map (!·)))) := by
+  rw [acqMat_map, acqMat_map]
+  apply List.map_congr_left
+  intro a ha
+  apply List.map_congr_left
+  intro b hb
+  exact acq_gather_compl m a b (hl a ha) (hc a ha b hb)
+
+/-- complement symmetry of the pure branch (only pairwise commutation is used) -/
+theorem entropy_compl (gs : List PStr) (N : Nat) (m : List Bool) (hN : gs.length = N)
+    (hl : ∀ g ∈ gs, g.length ≤ m.length) (hc : ∀ a ∈ gs, ∀ b ∈ gs, acq a b = 0) :
+    entropy gs N m = entropy gs N (m.map (!·)) := by
+  unfold entropy
+  simp only [hN, if_true, map_not_not]
+  have hf : (fun g => anyBit (gather (m.map (!·)) g) && anyBit (gather m g))
+      = (fun g => anyBit (gather m g) && anyBit (gather (m.map (!·)) g)) := by
+    funext g; exact Bool.and_comm _ _
+  rw [hf]
+  have hmem : ∀ a ∈ gs.filter (fun g => anyBit (gather m g) && anyBit (gather (m.map (!·)) g)), a ∈ gs :=
+    fun a ha => (List.mem_filter.mp ha).1
+  rw [acqMat_gather_compl m _ (fun a ha => hl a (hmem a ha)) (fun a ha b hb => hc a (hmem a ha) b (hmem b hb))]
+  simp only [List.length_map]
+
+end PE
+end PC
+
+/-! ## §A the abstract symplectic statement (Mathlib) -/
+
+namespace PC.Symp
+open Module
+
+variable {F : Type*} [Field F]
+variable {WA WB : Type*} [AddCommGroup WA] [Module F WA] [FiniteDimensional F WA]
+  [AddCommGroup WB] [Module F WB] [FiniteDimensional F WB]
+variable {ι ι' : Type*} [Fintype ι] [Fintype ι']
+
+/-- the Gram map `c ↦ (∑ i, c i * ω (P' i) (P' j))_j` -/
+def gramMap (ω : LinearMap.BilinForm F WA) (P' : ι' → WA) : (ι' → F) →ₗ[F] (ι' → F) where
+  toFun c := fun j => ∑ i, c i * ω (P' i) (P' j)
+  map_add' c d := by
+    funext j
+    simp only [Pi.add_apply, add_mul, Finset.sum_add_distrib]
+  map_smul' a c := by
+    funext j
+    simp only [Pi.smul_apply, smul_eq_mul, RingHom.id_apply, Finset.mul_sum]
+    apply Finset.sum_congr rfl; intros; ring
+
+section helpers
+
+variable {V : Type*} [AddCommGroup V] [Module F V]
+variable {U : Type*} [AddCommGroup U] [Module F U]
+
+/-- membership in the orthogonal of a span can be tested on the generators -/
+lemma mem_orthogonal_span_iff (B : LinearMap.BilinForm F V) (s : Set V) (x : V) :
+    x ∈ B.orthogonal (Submodule.span F s) ↔ ∀ y ∈ s, B y x = 0 := by
+  rw [LinearMap.BilinForm.mem_orthogonal_iff]
+  constructor
+  · intro h y hy
+    exact h y (Submodule.subset_span hy)
+  · intro h n hn
+    induction hn using Submodule.span_induction with
+    | mem y hy => exact h y hy
+    | zero => simp
+    | add a b _ _ ha hb => simp [ha, hb]
+    | smul a y _ hy => simp [hy]
+
+/-- rank–nullity for the preimage of a submodule -/
+lemma finrank_comap_eq [FiniteDimensional F U] (f : U →ₗ[F] V) (S : Submodule F V) :
+    finrank F (S.comap f) = finrank F (LinearMap.ker f) + finrank F (LinearMap.range f ⊓ S : Submodule F V) := by
+  have hle : LinearMap.ker f ≤ S.comap f := by
+    intro x hx
+    rw [Submodule.mem_comap, LinearMap.mem_ker.1 hx]
+    exact S.zero_mem
+  have h := LinearMap.finrank_range_add_finrank_ker (f.comp (S.comap f).subtype)
+  rw [LinearMap.range_comp, Submodule.range_subtype, Submodule.map_comap_eq, LinearMap.ker_comp,
+    LinearEquiv.finrank_eq (Submodule.comapSubtypeEquivOfLe hle)] at h
+  omega
+
+/-- injectivity on a submodule preserves its dimension -/
+lemma finrank_map_eq_of_disjoint_ker (f : U →ₗ[F] V) (S : Submodule F U)
+    (h : ∀ x ∈ S, f x = 0 → x = 0) :
+    finrank F (S.map f) = finrank F S := by
+  have hinj : Function.Injective (f.comp S.subtype) := by
+    rw [← LinearMap.ker_eq_bot, LinearMap.ker_eq_bot']
+    intro x hx
+    exact Subtype.ext (h x.1 x.2 hx)
+  have := LinearMap.finrank_range_of_inj hinj
+  rwa [LinearMap.range_comp, Submodule.range_subtype] at this
+
+end helpers
+
+omit [FiniteDimensional F WA] [FiniteDimensional F WB] in
+/-- Step 1: `ΦP` maps `ker ΦQ` into the orthogonal of `range ΦP`. -/
+lemma map_ker_le_orthogonal
+    (ωA : LinearMap.BilinForm F WA) (ωB : LinearMap.BilinForm F WB)
+    (P : ι → WA) (Q : ι → WB)
+    (hiso : ∀ i j, ωA (P i) (P j) + ωB (Q i) (Q j) = 0) :
+    (LinearMap.ker (Fintype.linearCombination F Q)).map (Fintype.linearCombination F P)
+      ≤ ωA.orthogonal (LinearMap.range (Fintype.linearCombination F P)) := by
+  rintro _ ⟨c, hc, rfl⟩
+  rw [Fintype.range_linearCombination, mem_orthogonal_span_iff]
+  rintro _ ⟨j, rfl⟩
+  have hc' : ∑ i, c i • Q i = 0 := by
+    simpa [Fintype.linearCombination_apply] using hc
+  have h0 : ωA (P j) (∑ i, c i • P i) + ωB (Q j) (∑ i, c i • Q i) = 0 := by
+    simp only [map_sum, map_smul, smul_eq_mul, ← Finset.sum_add_distrib, ← mul_add, hiso,
+      mul_zero, Finset.sum_const_zero]
+  rw [hc', map_zero, add_zero] at h0
+  rw [Fintype.linearCombination_apply]
+  exact h0
+
+/-- Steps 1–3: the two inequalities are equalities. -/
+lemma map_ker_eq_orthogonal
+    (ωA : LinearMap.BilinForm F WA) (ωB : LinearMap.BilinForm F WB)
+    (hA : ωA.Nondegenerate) (hB : ωB.Nondegenerate)
+    (P : ι → WA) (Q : ι → WB)
+    (hdim : finrank F WA + finrank F WB = 2 * Fintype.card ι)
+    (hiso : ∀ i j, ωA (P i) (P j) + ωB (Q i) (Q j) = 0)
+    (hind : ∀ c : ι → F, ∑ i, c i • P i = 0 → ∑ i, c i • Q i = 0 → c = 0) :
+    (LinearMap.ker (Fintype.linearCombination F Q)).map (Fintype.linearCombination F P)
+        = ωA.orthogonal (LinearMap.range (Fintype.linearCombination F P)) ∧
+      finrank F (LinearMap.range (Fintype.linearCombination F P))
+        + finrank F (LinearMap.ker (Fintype.linearCombination F Q)) = finrank F WA ∧
+      finrank F (ωA.orthogonal (LinearMap.range (Fintype.linearCombination F P)))
+        = finrank F (LinearMap.ker (Fintype.linearCombination F Q)) := by
+  have hiso' : ∀ i j, ωB (Q i) (Q j) + ωA (P i) (P j) = 0 := fun i j => by
+    rw [add_comm]; exact hiso i j
+  have leA := map_ker_le_orthogonal ωA ωB P Q hiso
+  have leB := map_ker_le_orthogonal ωB ωA Q P hiso'
+  have eA : finrank F ((LinearMap.ker (Fintype.linearCombination F Q)).map
+      (Fintype.linearCombination F P)) = finrank F (LinearMap.ker (Fintype.linearCombination F Q)) := by
+    apply finrank_map_eq_of_disjoint_ker
+    intro c hc hc0
+    rw [LinearMap.mem_ker] at hc
+    rw [Fintype.linearCombination_apply] at hc hc0
+    exact hind c hc0 hc
+  have eB : finrank F ((LinearMap.ker (Fintype.linearCombination F P)).map
+      (Fintype.linearCombination F Q)) = finrank F (LinearMap.ker (Fintype.linearCombination F P)) := by
+    apply finrank_map_eq_of_disjoint_ker
+    intro c hc hc0
+    rw [LinearMap.mem_ker] at hc
+    rw [Fintype.linearCombination_apply] at hc hc0
+    exact hind c hc hc0
+  have iA := Submodule.finrank_mono leA
+  have iB := Submodule.finrank_mono leB
+  have oA := LinearMap.BilinForm.finrank_orthogonal hA
+    (LinearMap.range (Fintype.linearCombination F P))
+  have oB := LinearMap.BilinForm.finrank_orthogonal hB
+    (LinearMap.range (Fintype.linearCombination F Q))
+  have rA := LinearMap.finrank_range_add_finrank_ker (Fintype.linearCombination F P)
+  have rB := LinearMap.finrank_range_add_finrank_ker (Fintype.linearCombination F Q)
+  rw [Module.finrank_fintype_fun_eq_card] at rA rB
+  have lA := Submodule.finrank_le (LinearMap.range (Fintype.linearCombination F P))
+  have lB := Submodule.finrank_le (LinearMap.range (Fintype.linearCombination F Q))
+  have hz : finrank F (ωA.orthogonal (LinearMap.range (Fintype.linearCombination F P)))
+        = finrank F (LinearMap.ker (Fintype.linearCombination F Q)) := by omega
+  refine ⟨?_, by omega, hz⟩
+  apply Submodule.eq_of_le_of_finrank_eq leA
+  rw [eA, hz]
+
+omit [FiniteDimensional F WA] in
+/-- Step 6: the kernel of the Gram map is the preimage of the orthogonal of the span. -/
+lemma ker_gramMap_eq (ω : LinearMap.BilinForm F WA) (hr : ω.IsRefl) (P' : ι' → WA) :
+    LinearMap.ker (gramMap ω P')
+      = (ω.orthogonal (LinearMap.range (Fintype.linearCombination F P'))).comap
+          (Fintype.linearCombination F P') := by
+  ext c
+  rw [LinearMap.mem_ker, Submodule.mem_comap, Fintype.range_linearCombination,
+    mem_orthogonal_span_iff, Fintype.linearCombination_apply]
+  have key : ∀ j, (gramMap ω P' c) j = ω (∑ i, c i • P' i) (P' j) := by
+    intro j
+    simp [gramMap, map_sum, LinearMap.sum_apply]
+  constructor
+  · rintro h _ ⟨j, rfl⟩
+    rw [hr.eq_iff, ← key, h]
+    rfl
+  · intro h
+    funext j
+    change (gramMap ω P' c) j = 0
+    rw [key, hr.eq_iff]
+    exact h _ ⟨j, rfl⟩
+
+theorem gram_kernel_dim
+    (ωA : LinearMap.BilinForm F WA) (ωB : LinearMap.BilinForm F WB)
+    (hA : ωA.Nondegenerate) (hB : ωB.Nondegenerate)
+    (hAalt : ∀ x, ωA x x = 0)
+    (P : ι → WA) (Q : ι → WB) (P' : ι' → WA)
+    (hdim : finrank F WA + finrank F WB = 2 * Fintype.card ι)
+    (hiso : ∀ i j, ωA (P i) (P j) + ωB (Q i) (Q j) = 0)
+    (hind : ∀ c : ι → F, ∑ i, c i • P i = 0 → ∑ i, c i • Q i = 0 → c = 0)
+    (h1 : ∀ i', ∃ i, P' i' = P i)
+    (h2 : ∀ i, (∃ i', P i = P' i') ∨ Q i = 0 ∨ P i = 0) :
+    finrank F (LinearMap.ker (gramMap ωA P')) + finrank F WA
+      = Fintype.card ι' + 2 * finrank F (LinearMap.ker (Fintype.linearCombination F Q)) := by
+  classical
+  have hAa : ωA.IsAlt := hAalt
+  have hr : ωA.IsRefl := hAa.isRefl
+  obtain ⟨hZ, hrk, hz⟩ := map_ker_eq_orthogonal ωA ωB hA hB P Q hdim hiso hind
+  set V := LinearMap.range (Fintype.linearCombination F P) with hV
+  set VT := LinearMap.range (Fintype.linearCombination F P') with hVT
+  set Z := ωA.orthogonal V with hZdef
+  have hZV : Z ≤ V := by
+    rw [← hZ]; exact LinearMap.map_le_range
+  have hVTV : VT ≤ V := by
+    rw [hVT, hV, Fintype.range_linearCombination, Fintype.range_linearCombination]
+    apply Submodule.span_mono
+    rintro _ ⟨i', rfl⟩
+    obtain ⟨i, hi⟩ := h1 i'
+    exact ⟨i, hi.symm⟩
+  -- Step 4
+  have hsup : VT ⊔ Z = V := by
+    apply le_antisymm (sup_le hVTV hZV)
+    rw [hV, Fintype.range_linearCombination, Submodule.span_le]
+    rintro _ ⟨i, rfl⟩
+    rcases h2 i with ⟨i', hi'⟩ | hQ | hP
+    · apply Submodule.mem_sup_left
+      rw [hVT, Fintype.range_linearCombination, hi']
+      exact Submodule.subset_span ⟨i', rfl⟩
+    · apply Submodule.mem_sup_right
+      rw [← hZ]
+      refine ⟨Pi.single i 1, ?_, ?_⟩
+      · rw [SetLike.mem_coe, LinearMap.mem_ker]
+        simp [Fintype.linearCombination_apply, Pi.single_apply, hQ]
+      · simp [Fintype.linearCombination_apply, Pi.single_apply]
+    · rw [hP]; exact Submodule.zero_mem _
+  -- Step 5
+  have hinf : VT ⊓ ωA.orthogonal VT = VT ⊓ Z := by
+    apply le_antisymm
+    · intro x hx
+      obtain ⟨hxT, hxo⟩ := Submodule.mem_inf.1 hx
+      refine Submodule.mem_inf.2 ⟨hxT, ?_⟩
+      rw [hZdef, LinearMap.BilinForm.mem_orthogonal_iff]
+      intro n hn
+      rw [← hsup] at hn
+      obtain ⟨t, ht, z, hz', rfl⟩ := Submodule.mem_sup.1 hn
+      rw [map_add, LinearMap.add_apply]
+      have e1 : ωA t x = 0 := (LinearMap.BilinForm.mem_orthogonal_iff.1 hxo) t ht
+      have e2 : ωA z x = 0 := by
+        rw [hr.eq_iff]
+        exact (LinearMap.BilinForm.mem_orthogonal_iff.1 hz') x (hVTV hxT)
+      rw [e1, e2, add_zero]
+    · exact inf_le_inf_left _ (LinearMap.BilinForm.orthogonal_le hVTV)
+  -- Step 6
+  have hker := ker_gramMap_eq ωA hr P'
+  have hcomap := finrank_comap_eq (Fintype.linearCombination F P') (ωA.orthogonal VT)
+  rw [← hker, ← hVT, hinf] at hcomap
+  have rT := LinearMap.finrank_range_add_finrank_ker (Fintype.linearCombination F P')
+  rw [Module.finrank_fintype_fun_eq_card, ← hVT] at rT
+  -- Step 7
+  have hsi := Submodule.finrank_sup_add_finrank_inf_eq VT Z
+  rw [hsup] at hsi
+  omega
+
+theorem gram_kernel_card
+    {WA WB : Type*} [AddCommGroup WA] [Module (ZMod 2) WA] [FiniteDimensional (ZMod 2) WA]
+    [AddCommGroup WB] [Module (ZMod 2) WB] [FiniteDimensional (ZMod 2) WB]
+    {ι ι' : Type*} [Fintype ι] [Fintype ι']
+    (ωA : LinearMap.BilinForm (ZMod 2) WA) (ωB : LinearMap.BilinForm (ZMod 2) WB)
+    (hA : ωA.Nondegenerate) (hB : ωB.Nondegenerate)
+    (hAalt : ∀ x, ωA x x = 0)
+    (P : ι → WA) (Q : ι → WB) (P' : ι' → WA)
+    (hdim : finrank (ZMod 2) WA + finrank (ZMod 2) WB = 2 * Fintype.card ι)
+    (hiso : ∀ i j, ωA (P i) (P j) + ωB (Q i) (Q j) = 0)
+    (hind : ∀ c : ι → ZMod 2, ∑ i, c i • P i = 0 → ∑ i, c i • Q i = 0 → c = 0)
+    (h1 : ∀ i', ∃ i, P' i' = P i)
+    (h2 : ∀ i, (∃ i', P i = P' i') ∨ Q i = 0 ∨ P i = 0) :
+    Nat.card {c : ι' → ZMod 2 // ∀ j, ∑ i, c i * ωA (P' i) (P' j) = 0} * 2 ^ finrank (ZMod 2) WA
+      = 2 ^ Fintype.card ι' * (Nat.card {c : ι → ZMod 2 // ∑ i, c i • Q i = 0}) ^ 2 := by
+  have hdimeq := gram_kernel_dim ωA ωB hA hB hAalt P Q P' hdim hiso hind h1 h2
+  have e1 : Nat.card {c : ι' → ZMod 2 // ∀ j, ∑ i, c i * ωA (P' i) (P' j) = 0}
+      = Nat.card (LinearMap.ker (gramMap ωA P')) := by
+    apply Nat.card_congr
+    apply Equiv.subtypeEquivRight
+    intro c
+    rw [LinearMap.mem_ker, funext_iff]
+    rfl
+  have e2 : Nat.card {c : ι → ZMod 2 // ∑ i, c i • Q i = 0}
+      = Nat.card (LinearMap.ker (Fintype.linearCombination (ZMod 2) Q)) := by
+    apply Nat.card_congr
+    apply Equiv.subtypeEquivRight
+    intro c
+    rw [LinearMap.mem_ker, Fintype.linearCombination_apply]
+  have c1 : Nat.card (LinearMap.ker (gramMap ωA P'))
+      = 2 ^ finrank (ZMod 2) (LinearMap.ker (gramMap ωA P')) := by
+    rw [Module.natCard_eq_pow_finrank (K := ZMod 2) (V := LinearMap.ker (gramMap ωA P')),
+      Nat.card_zmod]
+  have c2 : Nat.card (LinearMap.ker (Fintype.linearCombination (ZMod 2) Q))
+      = 2 ^ finrank (ZMod 2) (LinearMap.ker (Fintype.linearCombination (ZMod 2) Q)) := by
+    rw [Module.natCard_eq_pow_finrank (K := ZMod 2)
+      (V := LinearMap.ker (Fintype.linearCombination (ZMod 2) Q)), Nat.card_zmod]
+  rw [e1, e2, c1, c2, ← pow_add, hdimeq, pow_add, ← pow_mul, mul_comm 2]
+
+end PC.Symp
+
+namespace PC
+namespace PE
+open Rank Z2 Cp Tr
+
+/-! ## §2 bits as elements of `ZMod 2`; counting over `allBits` as a cardinality -/
+
+def b2z (b : Bool) : ZMod 2 := if b then 1 else 0
+def z2b (x : ZMod 2) : Bool := decide (x = 1)
+
+theorem b2z_and (x y : Bool) : b2z (x && y) = b2z x * b2z y := by cases x <;> cases y <;> decide
+theorem b2z_xor (x y : Bool) : b2z (x != y) = b2z x + b2z y := by cases x <;> cases y <;> decide
+theorem b2z_false : b2z false = 0 := rfl
+theorem b2z_eq_zero (x : Bool) : b2z x = 0 ↔ x = false := by cases x <;> decide
+theorem z2b_b2z (x : Bool) : z2b (b2z x) = x := by cases x <;> decide
+theorem b2z_z2b (x : ZMod 2) : b2z (z2b x) = x := by revert x; decide
+
+theorem b2z_xsum (f : Nat → Bool) (n : Nat) : b2z (xsum f n) = ∑ k : Fin n, b2z (f k) := by
+  induction n with
+  | zero => simp [xsum, b2z]
+  | succ n ih => rw [xsum, b2z_xor, ih, Fin.sum_univ_castSucc]; rfl
+
+/-- a `ZMod 2` vector as a bit list -/
+def ofV {n : Nat} (c : Fin n → ZMod 2) : List Bool := List.ofFn fun i => z2b (c i)
+
+theorem length_ofV {n : Nat} (c : Fin n → ZMod 2) : (ofV c).length = n := by simp [ofV]
+
+theorem getD_ofV {n : Nat} (c : Fin n → ZMod 2) (i : Fin n) : b2z ((ofV c).getD i false) = c i := by
+  simp [ofV, List.getD_eq_getElem?_getD, b2z_z2b]
+
+/-- a bit list as a `ZMod 2` vector -/
+def toV (n : Nat) (l : List Bool) : Fin n → ZMod 2 := fun i => b2z (l.getD i false)
+
+theorem toV_ofV {n : Nat} (c : Fin n → ZMod 2) : toV n (ofV c) = c := funext fun i => getD_ofV c i
+
+theorem ofV_toV (n : Nat) (l : List Bool) (h : l.length = n) : ofV (toV n l) = l := by
+  apply List.ext_getElem (by rw [length_ofV, h])
+  intro i h1 h2
+  simp [ofV, toV, z2b_b2z, List.getD_eq_getElem?_getD, List.getElem?_eq_getElem h2]
+
+theorem cnt_eq_card (n : Nat) (p : List Bool → Bool) :
+    cnt n p = Nat.card {c : Fin n → ZMod 2 // p (ofV c) = true} := by
+  unfold cnt
+  have hnd : ((allBits n).filter p).Nodup := (nodup_allBits n).filter _
+  rw [← List.toFinset_card_of_nodup hnd, ← Nat.card_eq_finsetCard]
+  apply Nat.card_congr
+  refine ⟨fun l => ⟨toV n l.1, ?_⟩, fun c => ⟨ofV c.1, ?_⟩, ?_, ?_⟩
+  · have := l.2
+    rw [List.mem_toFinset, List.mem_filter, mem_allBits] at this
+    rw [ofV_toV n l.1 this.1]; exact this.2
+  · rw [List.mem_toFinset, List.mem_filter, mem_allBits]
+    exact ⟨length_ofV c.1, c.2⟩
+  · intro l
+    have := l.2
+    rw [List.mem_toFinset, List.mem_filter, mem_allBits] at this
+    exact Subtype.ext (ofV_toV n l.1 this.1)
+  · intro c
+    exact Subtype.ext (toV_ofV c.1)
+
+/-- `kernelCount` as the cardinality of the left kernel over `ZMod 2` -/
+theorem kernelCount_eq_card (A : BMat) (nr nc : Nat) (h : A.length = nr) :
+    kernelCount A nc = Nat.card {c : Fin nr → ZMod 2 // ∀ j, j < nc → ∑ i, c i * b2z (A.get i j) = 0} := by
+  subst h
+  rw [kernelCount_eq, cnt_eq_card]
+  apply Nat.card_congr
+  apply Equiv.subtypeEquivRight
+  intro c
+  rw [kerB_iff]
+  apply forall_congr'; intro j
+  apply forall_congr'; intro _
+  rw [← b2z_eq_zero, mmul, b2z_xsum]
+  simp only [cvec, b2z_and, getD_ofV]
+
+/-! ## §3 Pauli strings on `n` qubits as vectors; the symplectic form -/
+
+abbrev W (n : Nat) := Fin n → ZMod 2 × ZMod 2
+
+def toVec (n : Nat) (g : PStr) : W n :=
+  fun k => (b2z (g.getD k (false, false)).1, b2z (g.getD k (false, false)).2)
+
+def fromVec {n : Nat} (v : W n) : PStr := List.ofFn fun k => (z2b (v k).1, z2b (v k).2)
+
+theorem length_fromVec {n : Nat} (v : W n) : (fromVec v).length = n := by simp [fromVec]
+
+theorem toVec_fromVec {n : Nat} (v : W n) : toVec n (fromVec v) = v := by
+  funext k
+  simp [toVec, fromVec, List.getD_eq_getElem?_getD, b2z_z2b]
+
+theorem fromVec_toVec (n : Nat) (g : PStr) (h : g.length = n) : fromVec (toVec n g) = g := by
+  apply List.ext_getElem (by rw [length_fromVec, h])
+  intro i h1 h2
+  simp [fromVec, toVec, z2b_b2z, List.getD_eq_getElem?_getD, List.getElem?_eq_getElem h2]
+
+theorem toVec_injective (n : Nat) (a b : PStr) (ha : a.length = n) (hb : b.length = n)
+    (h : toVec n a = toVec n b) : a = b := by
+  rw [← fromVec_toVec n a ha, ← fromVec_toVec n b hb, h]
+
+theorem toVec_xorS (n : Nat) (a b : PStr) (h : a.length = b.length) :
+    toVec n (xorS a b) = toVec n a + toVec n b := by
+  funext k
+  simp only [toVec, Pi.add_apply, getD_xorS a b _ h, xorQ, b2z_xor, Prod.mk_add_mk]
+
+theorem toVec_idStr (n k : Nat) : toVec n (idStr k) = 0 := by
+  funext j
+  simp [toVec, idStr, List.getD_eq_getElem?_getD, List.getElem?_replicate, b2z]
+  split <;> simp
+
+theorem toVec_cons_zero (n : Nat) (q : Q) (g : PStr) : toVec (n + 1) (q :: g) 0 = (b2z q.1, b2z q.2) := rfl
+theorem toVec_cons_succ (n : Nat) (q : Q) (g : PStr) (k : Fin n) :
+    toVec (n + 1) (q :: g) k.succ = toVec n g k := rfl
+
+/-- the symplectic form `∑ₖ (u_k.z v_k.x − u_k.x v_k.z)` -/
+def omega (n : Nat) : LinearMap.BilinForm (ZMod 2) (W n) :=
+  LinearMap.mk₂ (ZMod 2) (fun u v => ∑ k, ((u k).2 * (v k).1 - (u k).1 * (v k).2))
+    (fun u u' v => by
+      simp only [Pi.add_apply, Prod.fst_add, Prod.snd_add]
+      rw [← Finset.sum_add_distrib]; apply Finset.sum_congr rfl; intros; ring)
+    (fun a u v => by
+      simp only [Pi.smul_apply, Prod.smul_fst, Prod.smul_snd, smul_eq_mul, Finset.mul_sum]
+      apply Finset.sum_congr rfl; intros; ring)
+    (fun u v v' => by
+      simp only [Pi.add_apply, Prod.fst_add, Prod.snd_add]
+      rw [← Finset.sum_add_distrib]; apply Finset.sum_congr rfl; intros; ring)
+    (fun a u v => by
+      simp only [Pi.smul_apply, Prod.smul_fst, Prod.smul_snd, smul_eq_mul, Finset.mul_sum]
+      apply Finset.sum_congr rfl; intros; ring)
+
+theorem omega_apply (n : Nat) (u v : W n) :
+    omega n u v = ∑ k, ((u k).2 * (v k).1 - (u k).1 * (v k).2) := rfl
+
+theorem omega_self (n : Nat) (u : W n) : omega n u u = 0 := by
+  rw [omega_apply]; apply Finset.sum_eq_zero; intros; ring
+
+theorem omega_swap (n : Nat) (u v : W n) : omega n u v = - omega n v u := by
+  rw [omega_apply, omega_apply, ← Finset.sum_neg_distrib]; apply Finset.sum_congr rfl; intros; ring
+
+theorem omega_nondegenerate (n : Nat) : (omega n).Nondegenerate := by
+  have hl : ∀ u : W n, (∀ v, omega n u v = 0) → u = 0 := by
+    intro u h
+    funext k
+    have h1 := h (Pi.single k (1, 0))
+    have h2 := h (Pi.single k (0, 1))
+    rw [omega_apply, Finset.sum_eq_single k (by intro j _ hj; simp [Pi.single_eq_of_ne hj]) (by simp)] at h1 h2
+    simp at h1 h2
+    exact Prod.ext h2 h1
+  refine ⟨hl, fun v h => hl v (fun u => ?_)⟩
+  rw [omega_swap, h u, neg_zero]
+
+theorem finrank_W (n : Nat) : Module.finrank (ZMod 2) (W n) = 2 * n := by
+  rw [Module.finrank_pi_fintype]
+  simp [Module.finrank_prod, Module.finrank_self, Nat.mul_comm]
+
+theorem cast_b2i (x : Bool) : ((b2i x : Int) : ZMod 2) = b2z x := by cases x <;> simp [b2i, b2z]
+
+theorem omega_toVec : ∀ (n : Nat) (a b : PStr), a.length = n → b.length = n →
+    omega n (toVec n a) (toVec n b) = ((acqSum a b : Int) : ZMod 2)
+  | 0, [], [], _, _ => by simp [omega_apply, acqSum]
+  | n + 1, q :: qs, r :: rs, ha, hb => by
+    have ih := omega_toVec n qs rs (by simpa using ha) (by simpa using hb)
+    rw [omega_apply] at ih ⊢
+    rw [Fin.sum_univ_succ, acqSum_cons, Int.cast_add, ← ih]
+    simp only [toVec_cons_zero, toVec_cons_succ, acqQ, Int.cast_sub, Int.cast_mul, cast_b2i]
+
+theorem omega_toVec_acq (n : Nat) (a b : PStr) (ha : a.length = n) (hb : b.length = n) :
+    omega n (toVec n a) (toVec n b) = ((acq a b : Int) : ZMod 2) := by
+  rw [omega_toVec n a b ha hb, acq]
+  exact (ZMod.intCast_mod _ 2).symm
+
+theorem b2z_acq_ne (n : Nat) (a b : PStr) (ha : a.length = n) (hb : b.length = n) :
+    b2z (acq a b != 0) = omega n (toVec n a) (toVec n b) := by
+  rw [omega_toVec_acq n a b ha hb]
+  rcases acq_bit a b with h | h <;> rw [h] <;> decide
+
+/-! ## §4 the three kernel counts as cardinalities of kernels of linear maps -/
+
+theorem getD_flat_even : ∀ (g : PStr) (k : Nat), (flat g).getD (2 * k) false = (g.getD k (false, false)).1
+  | [], k => by simp [flat]
+  | q :: qs, 0 => rfl
+  | q :: qs, k + 1 => by
+    rw [show 2 * (k + 1) = 2 * k + 2 from by omega, getD_flat_add_two, getD_flat_even qs k]; simp
+
+theorem getD_flat_odd : ∀ (g : PStr) (k : Nat), (flat g).getD (2 * k + 1) false = (g.getD k (false, false)).2
+  | [], k => by simp [flat]
+  | q :: qs, 0 => rfl
+  | q :: qs, k + 1 => by
+    rw [show 2 * (k + 1) + 1 = (2 * k + 1) + 2 from by omega, getD_flat_add_two, getD_flat_odd qs k]; simp
+
+theorem get_map_rows {α : Type} (l : List α) (d : α) (f : α → List Bool) (i j : Nat) (hi : i < l.length) :
+    BMat.get (l.map f) i j = (f (l.getD i d)).getD j false := by
+  simp [BMat.get, List.getD_eq_getElem?_getD, List.getElem?_eq_getElem hi]
+
+/-- kernel count of a matrix whose rows are flattened strings -/
+theorem kernelCount_flat (rows : List PStr) (f : PStr → PStr) (n : Nat) :
+    kernelCount (rows.map fun g => flat (f g)) (2 * n) =
+      Nat.card {c : Fin rows.length → ZMod 2 // ∑ i, c i • toVec n (f (rows.getD i [])) = 0} := by
+  rw [kernelCount_eq_card _ rows.length _ (by simp)]
+  apply Nat.card_congr
+  apply Equiv.subtypeEquivRight
+  intro c
+  have hget : ∀ (i : Fin rows.length) (j : Nat),
+      BMat.get (rows.map fun g => flat (f g)) i j = (flat (f (rows.getD i []))).getD j false :=
+    fun i j => get_map_rows rows [] _ i j i.2
+  simp only [hget]
+  constructor
+  · intro h
+    funext k
+    have h0 := h (2 * k) (by omega)
+    have h1 := h (2 * k + 1) (by omega)
+    simp only [getD_flat_even, getD_flat_odd] at h0 h1
+    apply Prod.ext
+    · simpa [toVec, Finset.sum_apply, Prod.fst_sum] using h0
+    · simpa [toVec, Finset.sum_apply, Prod.snd_sum] using h1
+  · intro h j hj
+    have hk := congrFun h ⟨j / 2, by omega⟩
+    rcases Nat.mod_two_eq_zero_or_one j with e | e
+    · have : j = 2 * (j / 2) := by omega
+      rw [this]
+      simp only [getD_flat_even]
+      simpa [toVec, Finset.sum_apply, Prod.fst_sum] using congrArg Prod.fst hk
+    · have : j = 2 * (j / 2) + 1 := by omega
+      rw [this]
+      simp only [getD_flat_odd]
+      simpa [toVec, Finset.sum_apply, Prod.snd_sum] using congrArg Prod.snd hk
+
+/-- kernel count of the anticommutation matrix of a list of strings of length `n` -/
+theorem kernelCount_gram (l : List PStr) (f : PStr → PStr) (n : Nat) (hl : ∀ g ∈ l, (f g).length = n) :
+    kernelCount ((acqMat (l.map f)).map fun row => row.map (· != 0)) l.length =
+      Nat.card {c : Fin l.length → ZMod 2 // ∀ j : Fin l.length,
+        ∑ i, c i * omega n (toVec n (f (l.getD i []))) (toVec n (f (l.getD j []))) = 0} := by
+  rw [kernelCount_eq_card _ l.length _ (by simp [acqMat])]
+  apply Nat.card_congr
+  apply Equiv.subtypeEquivRight
+  intro c
+  have hmem : ∀ i : Fin l.length, l.getD i [] ∈ l := by
+    intro i
+    simp [List.getD_eq_getElem?_getD]
+  have hget : ∀ (i j : Fin l.length),
+      b2z (BMat.get ((acqMat (l.map f)).map fun row => row.map (· != 0)) i j) =
+        omega n (toVec n (f (l.getD i []))) (toVec n (f (l.getD j []))) := by
+    intro i j
+    rw [acqMat_map, List.map_map, get_map_rows l [] _ i j i.2]
+    simp only [Function.comp, List.map_map]
+    rw [List.getD_eq_getElem?_getD, List.getElem?_map, List.getElem?_eq_getElem j.2]
+    simp only [Option.map_some, Option.getD_some, Function.comp]
+    rw [b2z_acq_ne n _ _ (hl _ (hmem i)) (hl _ (by simp))]
+    simp [List.getD_eq_getElem?_getD]
+  constructor
+  · intro h j
+    have := h j j.2
+    simpa only [hget] using this
+  · intro h j hj
+    have e : ∀ i : Fin l.length, b2z (BMat.get ((acqMat (l.map f)).map fun row => row.map (· != 0)) i j) =
+        omega n (toVec n (f (l.getD i []))) (toVec n (f (l.getD j []))) := fun i => hget i ⟨j, hj⟩
+    simp only [e]
+    exact h ⟨j, hj⟩
+
+/-! ## §5 masks: region and complement -/
+
+theorem maskCount_add_compl (m : List Bool) : maskCount m + maskCount (m.map (!·)) = m.length := by
+  induction m with
+  | nil => rfl
+  | cons b t ih =>
+    cases b
+    · simp only [List.map_cons, Bool.not_false, maskCount_cons_false, maskCount_cons_true, List.length_cons]; omega
+    · simp only [List.map_cons, Bool.not_true, maskCount_cons_false, maskCount_cons_true, List.length_cons]; omega
+
+/-- a string is determined by its restrictions to a region and to the complement -/
+theorem eq_of_gather_eq : ∀ (m : List Bool) (a b : PStr), a.length = m.length → b.length = m.length →
+    gather m a = gather m b → gather (m.map (!·)) a = gather (m.map (!·)) b → a = b
+  | [], [], [], _, _, _, _ => rfl
+  | [], _ :: _, _, h, _, _, _ => by simp at h
+  | [], [], _ :: _, _, h, _, _ => by simp at h
+  | _ :: _, [], _, h, _, _, _ => by simp at h
+  | _ :: _, _ :: _, [], _, h, _, _ => by simp at h
+  | true :: ms, q :: qs, r :: rs, ha, hb, h1, h2 => by
+    simp only [List.map_cons, Bool.not_true, gather_cons_true, gather_cons_false] at h1 h2
+    have ht := eq_of_gather_eq ms qs rs (by simpa using ha) (by simpa using hb) (List.cons.inj h1).2 h2
+    rw [(List.cons.inj h1).1, ht]
+  | false :: ms, q :: qs, r :: rs, ha, hb, h1, h2 => by
+    simp only [List.map_cons, Bool.not_false, gather_cons_true, gather_cons_false] at h1 h2
+    have ht := eq_of_gather_eq ms qs rs (by simpa using ha) (by simpa using hb) h1 (List.cons.inj h2).2
+    rw [(List.cons.inj h2).1, ht]
+
+theorem toVec_of_anyBit_false (n : Nat) (g : PStr) (h : anyBit g = false) : toVec n g = 0 := by
+  funext k
+  have hq : ∀ q ∈ g, q = (false, false) := by
+    intro q hq
+    have := (List.any_eq_false.mp h) q hq
+    obtain ⟨x, z⟩ := q
+    cases x <;> cases z <;> simp_all
+  have : g.getD k (false, false) = (false, false) := by
+    rw [List.getD_eq_getElem?_getD]
+    cases hk : g[k]? with
+    | none => rfl
+    | some q => exact hq q (List.mem_of_getElem? hk)
+  simp only [toVec, this, b2z]
+  rfl
+
+theorem fromVec_add {n : Nat} (u v : W n) : fromVec (u + v) = xorS (fromVec u) (fromVec v) := by
+  have hl : (fromVec u).length = (fromVec v).length := by rw [length_fromVec, length_fromVec]
+  apply toVec_injective n _ _ (length_fromVec _) (by rw [length_xorS_eq _ _ hl, length_fromVec])
+  rw [toVec_xorS n _ _ hl, toVec_fromVec, toVec_fromVec, toVec_fromVec]
+
+/-- a vector on all qubits, split into its parts inside and outside the region (additive) -/
+def splitHom (m : List Bool) (N : Nat) (hm : m.length = N) :
+    W N →+ W (maskCount m) × W (maskCount (m.map (!·))) :=
+  AddMonoidHom.mk' (fun v => (toVec _ (gather m (fromVec v)), toVec _ (gather (m.map (!·)) (fromVec v))))
+    (fun u v => by
+      have hl : ∀ (m' : List Bool), m'.length = N →
+          (gather m' (fromVec u)).length = (gather m' (fromVec v)).length := by
+        intro m' hm'
+        rw [length_gather _ _ (by rw [length_fromVec, hm']), length_gather _ _ (by rw [length_fromVec, hm'])]
+      rw [fromVec_add, gather_xorS, gather_xorS, toVec_xorS _ _ _ (hl m hm),
+        toVec_xorS _ _ _ (hl _ (by rw [List.length_map, hm]))]
+      rfl)
+
+theorem splitHom_apply (m : List Bool) (N : Nat) (hm : m.length = N) (v : W N) :
+    splitHom m N hm v = (toVec _ (gather m (fromVec v)), toVec _ (gather (m.map (!·)) (fromVec v))) := rfl
+
+theorem splitHom_toVec (m : List Bool) (N : Nat) (hm : m.length = N) (g : PStr) (hg : g.length = N) :
+    splitHom m N hm (toVec N g) = (toVec _ (gather m g), toVec _ (gather (m.map (!·)) g)) := by
+  rw [splitHom_apply, fromVec_toVec N g hg]
+
+theorem splitHom_injective (m : List Bool) (N : Nat) (hm : m.length = N) :
+    Function.Injective (splitHom m N hm) := by
+  intro u v h
+  rw [splitHom_apply, splitHom_apply] at h
+  have hlen : ∀ (w : W N) (m' : List Bool), m'.length = N → (gather m' (fromVec w)).length = maskCount m' :=
+    fun w m' hm' => length_gather _ _ (by rw [length_fromVec, hm'])
+  have hnm : (m.map (!·)).length = N := by rw [List.length_map, hm]
+  have h1 := toVec_injective _ _ _ (hlen u m hm) (hlen v m hm) (congrArg Prod.fst h)
+  have h2 := toVec_injective _ _ _ (hlen u _ hnm) (hlen v _ hnm) (congrArg Prod.snd h)
+  have := eq_of_gather_eq m _ _ (by rw [length_fromVec, hm]) (by rw [length_fromVec, hm]) h1 h2
+  rw [← toVec_fromVec u, ← toVec_fromVec v, this]
+
+/-- a combination of strings vanishes as soon as its parts inside and outside the region vanish -/
+theorem comb_zero_of_parts (m : List Bool) (N : Nat) (hm : m.length = N) {ι : Type} [Fintype ι]
+    (g : ι → PStr) (hg : ∀ i, (g i).length = N) (c : ι → ZMod 2)
+    (hP : ∑ i, c i • toVec (maskCount m) (gather m (g i)) = 0)
+    (hQ : ∑ i, c i • toVec (maskCount (m.map (!·))) (gather (m.map (!·)) (g i)) = 0) :
+    ∑ i, c i • toVec N (g i) = 0 := by
+  apply splitHom_injective m N hm
+  have hlin : splitHom m N hm (∑ i, c i • toVec N (g i)) = ∑ i, c i • splitHom m N hm (toVec N (g i)) := by
+    have := map_sum ((splitHom m N hm).toZModLinearMap 2) (fun i => c i • toVec N (g i)) Finset.univ
+    simp only [map_smul, AddMonoidHom.coe_toZModLinearMap] at this
+    exact this
+  rw [hlin, map_zero]
+  simp only [splitHom_toVec m N hm _ (hg _)]
+  apply Prod.ext
+  · simpa [Prod.fst_sum] using hP
+  · simpa [Prod.snd_sum] using hQ
+
+/-! ## §6 the counting identity and the entropy formula -/
+
+theorem getD_mem (l : List PStr) (i : Fin l.length) : l.getD i [] ∈ l := by
+  simp [List.getD_eq_getElem?_getD]
+
+theorem exists_getD_of_mem (l : List PStr) (g : PStr) (h : g ∈ l) : ∃ i : Fin l.length, g = l.getD i [] := by
+  obtain ⟨i, hi, rfl⟩ := List.getElem_of_mem h
+  exact ⟨⟨i, hi⟩, by rw [List.getD_eq_getElem?_getD, List.getElem?_eq_getElem hi]; rfl⟩
+
+/-- **the counting identity** behind the entropy formula: with `K` the anticommutation matrix of the restrictions
+    of the generators that straddle the region, `#ker K · 2^(2|A|) = 2^(#rows) · (#supported)^2` -/
+theorem gram_count (gs : List PStr) (N : Nat) (m : List Bool) (hN : gs.length = N)
+    (hlen : ∀ g ∈ gs, g.length = N) (hc : ∀ a ∈ gs, ∀ b ∈ gs, acq a b = 0)
+    (hind : kernelCount (gs.map flat) (2 * N) = 1) (hm : m.length = N)
+    (across : List PStr)
+    (hac : across = gs.filter fun g => anyBit (gather m g) && anyBit (gather (m.map (!·)) g)) :
+    kernelCount ((acqMat (across.map (gather m))).map fun row => row.map (· != 0)) across.length
+        * 2 ^ (2 * maskCount m)
+      = 2 ^ across.length * (supportedCount gs m) ^ 2 := by
+  have hnm : (m.map (!·)).length = N := by rw [List.length_map, hm]
+  have hgA : ∀ g ∈ gs, (gather m g).length = maskCount m :=
+    fun g hg => length_gather _ _ (Nat.le_of_eq (by rw [hlen g hg, hm]))
+  have hgB : ∀ g ∈ gs, (gather (m.map (!·)) g).length = maskCount (m.map (!·)) :=
+    fun g hg => length_gather _ _ (Nat.le_of_eq (by rw [hlen g hg, hnm]))
+  have hsub : ∀ g ∈ across, g ∈ gs := fun g hg => by rw [hac] at hg; exact (List.mem_filter.mp hg).1
+  have key := Symp.gram_kernel_card (omega (maskCount m)) (omega (maskCount (m.map (!·))))
+    (omega_nondegenerate _) (omega_nondegenerate _) (omega_self _)
+    (fun i : Fin gs.length => toVec (maskCount m) (gather m (gs.getD i [])))
+    (fun i : Fin gs.length => toVec (maskCount (m.map (!·))) (gather (m.map (!·)) (gs.getD i [])))
+    (fun i : Fin across.length => toVec (maskCount m) (gather m (across.getD i [])))
+    (by rw [finrank_W, finrank_W, Fintype.card_fin, hN, ← hm, ← maskCount_add_compl m]; omega)
+    (by
+      intro i j
+      have hi := getD_mem gs i
+      have hj := getD_mem gs j
+      rw [omega_toVec _ _ _ (hgA _ hi) (hgA _ hj), omega_toVec _ _ _ (hgB _ hi) (hgB _ hj), ← Int.cast_add,
+        ← acqSum_split m _ _ (Nat.le_of_eq (by rw [hlen _ hi, hm]))]
+      have := hc _ hi _ hj
+      rw [acq] at this
+      rw [← ZMod.intCast_mod _ 2, Nat.cast_ofNat, this]; rfl)
+    (by
+      intro c hP hQ
+      have h0 := comb_zero_of_parts m N hm (fun i : Fin gs.length => gs.getD i [])
+        (fun i => hlen _ (getD_mem gs i)) c hP hQ
+      have hk := kernelCount_flat gs id N
+      simp only [id] at hk
+      rw [hind] at hk
+      obtain ⟨hs, _⟩ := Nat.card_eq_one_iff_unique.mp hk.symm
+      have := @Subsingleton.elim _ hs ⟨c, h0⟩ ⟨0, by simp⟩
+      exact congrArg Subtype.val this)
+    (by
+      intro i'
+      obtain ⟨i, hi⟩ := exists_getD_of_mem gs _ (hsub _ (getD_mem across i'))
+      exact ⟨i, by rw [hi]⟩)
+    (by
+      intro i
+      by_cases hp : (anyBit (gather m (gs.getD i [])) && anyBit (gather (m.map (!·)) (gs.getD i []))) = true
+      · have : gs.getD i [] ∈ across := by rw [hac]; exact List.mem_filter.mpr ⟨getD_mem gs i, hp⟩
+        obtain ⟨i', hi'⟩ := exists_getD_of_mem across _ this
+        exact Or.inl ⟨i', by rw [← hi']⟩
+      · rw [Bool.and_eq_true, not_and_or] at hp
+        rcases hp with hp | hp
+        · exact Or.inr (Or.inr (toVec_of_anyBit_false _ _ (by simpa using hp)))
+        · exact Or.inr (Or.inl (toVec_of_anyBit_false _ _ (by simpa using hp))))
+  rw [finrank_W, Fintype.card_fin] at key
+  rw [kernelCount_gram across (gather m) (maskCount m) (fun g hg => hgA g (hsub g hg))]
+  have hs : supportedCount gs m = Nat.card {c : Fin gs.length → ZMod 2 //
+      ∑ i, c i • toVec (maskCount (m.map (!·))) (gather (m.map (!·)) (gs.getD i [])) = 0} :=
+    kernelCount_flat gs (gather (m.map (!·))) (maskCount (m.map (!·)))
+  rw [hs]
+  exact key
+
+theorem isMat_gram (l : List PStr) :
+    IsMat ((acqMat l).map fun row => row.map (· != 0)) l.length l.length := by
+  refine ⟨by simp [acqMat], ?_⟩
+  intro row hrow
+  simp only [acqMat, List.map_map, List.mem_map] at hrow
+  obtain ⟨a, _, rfl⟩ := hrow
+  simp
+
+/-- **the pure branch of `stabilizer_entropy`** computes `|A| − log₂ #{group elements supported in A}` -/
+theorem entropy_pure (gs : List PStr) (N : Nat) (m : List Bool) (hN : gs.length = N)
+    (hlen : ∀ g ∈ gs, g.length = N) (hc : ∀ a ∈ gs, ∀ b ∈ gs, acq a b = 0)
+    (hind : kernelCount (gs.map flat) (2 * N) = 1) (hm : m.length = N) :
+    0 ≤ entropy gs N m ∧ supportedCount gs m * 2 ^ (entropy gs N m).toNat = 2 ^ maskCount m := by
+  have hnm : (m.map (!·)).length = N := by rw [List.length_map, hm]
+  have hcount := gram_count gs N m hN hlen hc hind hm _ rfl
+  set across := gs.filter fun g => anyBit (gather m g) && anyBit (gather (m.map (!·)) g) with hac
+  have hk := z2rank_kernel _ _ _ (isMat_gram (across.map (gather m)))
+  rw [List.length_map] at hk
+  have hsup : IsMat (gs.map fun g => flat (gather (m.map (!·)) g)) N (2 * maskCount (m.map (!·))) := by
+    refine ⟨by rw [List.length_map, hN], ?_⟩
+    intro row hrow
+    obtain ⟨g, hg, rfl⟩ := List.mem_map.mp hrow
+    rw [length_flat', length_gather _ _ (Nat.le_of_eq (by rw [hlen g hg, hnm]))]
+  have hq := z2rank_kernel _ _ _ hsup
+  have hsc : supportedCount gs m = 2 ^ (N - z2rank (gs.map fun g => flat (gather (m.map (!·)) g))
+      (2 * maskCount (m.map (!·)))) := hq.2
+  have hent : entropy gs N m =
+      ((z2rank ((acqMat (across.map (gather m))).map fun row => row.map (· != 0)) across.length : Nat) : Int) / 2 := by
+    unfold entropy
+    simp only [hN, if_true, List.length_map]
+    rfl
+  generalize z2rank ((acqMat (across.map (gather m))).map fun row => row.map (· != 0)) across.length = r
+    at hk hent hcount
+  generalize z2rank (gs.map fun g => flat (gather (m.map (!·)) g)) (2 * maskCount (m.map (!·))) = rq at hq hsc
+  rw [hk.2, hsc, ← Nat.pow_mul, ← Nat.pow_add, ← Nat.pow_add] at hcount
+  have hexp := Nat.pow_right_injective (Nat.le_refl 2) hcount
+  have hr2 : r = 2 * (maskCount m - (N - rq)) ∧ N - rq ≤ maskCount m := by
+    have := hk.1
+    omega
+  rw [hent, hsc]
+  have htn : ((r : Int) / 2).toNat = maskCount m - (N - rq) := by omega
+  refine ⟨by omega, ?_⟩
+  rw [htn, ← Nat.pow_add]
+  congr 1
+  omega
+
+end PE
 end PC
